@@ -51,7 +51,7 @@ NumCompositionColsV(t, Fixed) == IF Fixed THEN Max2(1, CompositionDegree(t) \div
                                  ELSE Max2(1, (CompositionDegree(t) + N(t) - 1) \div N(t))
 NumCompositionCols(t) == NumCompositionColsV(t, TRUE)
 
-\* ---- the assertions of a statement (the first t.nasserts of five templates covering every assertion kind; they never
+\* ---- the assertions of a statement (the first t.nasserts of six templates covering every assertion kind; they never
 \* name a common cell) and the cells they name ---------------------------------------------------------------
 AsrT(kind, col, first, stride, count) == [kind |-> kind, col |-> col, first |-> first, stride |-> stride, count |-> count]
 AssertTemplates(t) ==
@@ -60,8 +60,15 @@ AssertTemplates(t) ==
            AsrT("single", w - 1, n - 1, 0, 1),
            AsrT("periodic", 0, 1, 4, 1),
            AsrT("sequence", 2 % w, 2, 4, n \div 4),
-           IF w >= 4 THEN AsrT("sequence", 3, 0, 2, n \div 2) ELSE AsrT("single", 0, 4, 0, 1) >>
+           IF w >= 4 THEN AsrT("sequence", 3, 0, 2, n \div 2) ELSE AsrT("single", 0, 4, 0, 1),
+           \* a single assertion on the step "stride + first step" of the periodic one (another column): the two must not share a divisor
+           IF w >= 2 THEN AsrT("single", w - 1, 5, 0, 1) ELSE AsrT("single", 0, 3, 0, 1) >>
 Asserts(t) == SubSeq(AssertTemplates(t), 1, t.nasserts)
+\* the statement as the conformance harness instantiates it: a column that carries a periodic assertion has to repeat, so
+\* it is made a period-two column (constraint degree 1, no periodic factor); everything derived from degrees follows this
+Effective(t) == LET pc == {Asserts(t)[x].col + 1 : x \in {y \in 1..t.nasserts : Asserts(t)[y].kind = "periodic"}}
+                IN  [t EXCEPT !.degs = [i \in 1..t.width |-> IF i \in pc THEN 1 ELSE t.degs[i]],
+                              !.pcol = [i \in 1..t.width |-> IF i \in pc THEN 0 ELSE t.pcol[i]]]
 StepsOfA(a, n) == CASE a.kind = "single"   -> {a.first}
                     [] a.kind = "periodic" -> {a.first + a.stride * j : j \in 0..((n \div a.stride) - 1)}
                     [] a.kind = "sequence" -> {a.first + a.stride * j : j \in 0..(a.count - 1)}
